@@ -1,7 +1,7 @@
 CONSTANTS
   Tier = "thorough"
   Export = TRUE
-  Fams = {"short6", "short7", "cor6", "cor7", "heur6", "comp6", "comp7", "max6", "max7", "close"}
+  Fams = {"short6", "short7", "cor6", "cor7", "heur6", "comp6", "comp7", "max6", "max7", "close", "ctrlx6", "ctrlx7", "connless7", "tokreq7", "complim6", "complim7", "iter6", "iter7", "ncx6", "ncx7"}
   SliceLo = 0
   SliceHi = 1023
 INIT Init
